@@ -24,7 +24,7 @@ from .tokdiff import TokOracle, help_names, assume_not_named, run_tok_job, finis
 from .corpus import CORPUS
 
 PROP = "C19"
-GRAMMARS = ["k1", "k2", "k3", "k4", "kc"]
+GRAMMARS = ["k1", "k2", "k3", "k4", "k5", "kc"]
 
 N_P = G.Named("req_flag", "p", ["point"])
 N_R = G.Named("req_flag", "r", ["rect"])
@@ -138,6 +138,43 @@ def scan(ex, env, gname, items):
             r = G.SOME(blocks[0]) if blocks else G.NONE
             return ("clean", (r, sw == 1) if gname == "k2" else (sw == 1, r))
         return ("clean", (sw == 1, Seq(tuple(blocks))))
+    if gname == "k5":
+        while i < n:
+            it = items[i]
+            if it.kind == "dd":
+                i += 1
+                continue
+            if i < hi and m(ex, env, N_R, it):
+                if it.adj:
+                    return ("broken", "rect with attached value")
+                j = i + 1
+                if j + 1 <= hi - 1 and m(ex, env, N_W, items[j]) and items[j + 1].kind in ("word", "argword"):
+                    if not valid(ex, env, items[j + 1].val):
+                        return ("broken", "invalid member value")
+                    if rest:
+                        other = "positional before a block"
+                    blocks.append(env.value(items[j + 1].val))
+                    i = j + 2
+                    continue
+                return ("broken", "block cut short or interrupted")
+            if i < hi and m(ex, env, N_S, it):
+                if it.adj:
+                    return ("broken", "switch with attached value")
+                sw += 1
+                i += 1
+                continue
+            if it.kind in ("word", "posword"):
+                rest.append(it.val)
+                i += 1
+                continue
+            return ("broken", "foreign item")
+        if sw > 1 or len(rest) > 1 or len(blocks) > 1:
+            return ("broken", "surplus item")
+        if rest and not valid(ex, env, rest[0]):
+            return ("broken", "invalid positional")
+        if other:
+            return ("other", other)
+        return ("clean", (sw == 1, G.SOME(blocks[0]) if blocks else G.NONE, G.SOME(env.value(rest[0])) if rest else G.NONE))
     if gname == "kc":
         vs = 0
         while i < n:
@@ -207,7 +244,21 @@ class Oracle(TokOracle):
         items = G.items_of_words(words)
         env = spec_env(ex)
         # ---- soundness by provenance (independent of the scan) ----
-        if cls == "ok" and g.name != "kc":
+        if cls == "ok" and g.name == "k5":
+            v = payload[1]
+            if v.var == 1:
+                sv = u32_src(v.fields[0])
+                iv = src_index(items, sv) if sv is not None else None
+                bad = None
+                if iv is None or iv < 2:
+                    bad = "group value does not come from a block"
+                elif ex.prove(self.match_cond(ex, N_W, items[iv - 1])) is not None or ex.prove(self.match_cond(ex, N_R, items[iv - 2])) is not None:
+                    bad = "--rect, --width and its value are not neighbours"
+                if bad:
+                    report("non-contiguous-group", words, (cls, payload), ["stderr or contiguous blocks", bad])
+                    return
+            out["soundness_obligations"] = out.get("soundness_obligations", 0) + 1
+        elif cls == "ok" and g.name != "kc":
             pairs = None
             if g.name == "k1":
                 pairs = list(payload[0].items)
@@ -280,7 +331,11 @@ def make_jobs(tier, seed, build):
     for gname in GRAMMARS:
         g = CORPUS[gname]
         nmax = 3 if tier == "quick" else 4
-        for shape in tok.all_shapes_by_words(nmax, g.decl):
+        shapes = list(tok.all_shapes_by_words(nmax, g.decl))
+        if gname == "k5" and tier == "quick":
+            # the smallest interrupted block with something to its left needs 4 words
+            shapes += [("word",) + t for t in __import__("itertools").product(("short", "long", "short=", "long="), repeat=3)]
+        for shape in shapes:
             if True:
                 if len(shape) >= 4 and ("dd" in shape[:-1]):
                     continue
